@@ -11,7 +11,10 @@ Driver for C01 / C04 (one negotiation model).  Line (fields after the property i
             TeeIn/TeeOut (the model runs `stepT true`)
 * `cfg`     `;`-joined features `ns.loc:nec:proh:negotiable:listReq:listErr:parseErr:mask:restart:negErr`
             (the last six fields are the scripted behaviour of the callbacks; an optional eleventh
-            field `layer`: a restarting Negotiate returns a new connection layer), `-` = none
+            field `layer`: a restarting Negotiate returns a new connection layer; optional fields
+            twelve and thirteen `cnec:cproh`: the stream config function returns the feature only
+            for a session state with every bit of `cnec` and no bit of `cproh` — the model then
+            runs `stepD`), `-` = none
 * `script`  `;`-joined peer items: `H1`/`H0` header good/bad, `Hx` a good header of the other
             framing (`<open/>` on TCP, `<stream:stream>` on WebSocket), `A<i,i,…>` features list with
             items `ns.loc.req` or `J` (character data), `Ens.loc.iq.payload` another element,
@@ -40,6 +43,12 @@ structure Beh where
   negErr : Bool
   /-- a restarting `Negotiate` returns a new connection layer, not the session's connection -/
   layer : Bool := false
+  /-- the stream config function returns the feature only for sessions whose state has every bit
+  of `cnec` and no bit of `cproh` -/
+  cnec : St := 0
+  cproh : St := 0
+
+def Beh.configured (b : Beh) (st : St) : Bool := (st &&& b.cnec == b.cnec) && (st &&& b.cproh == 0)
 
 def parseName (s : String) : Option FName :=
   match s.splitOn "." with
@@ -62,6 +71,12 @@ def parseBeh (idx : Nat) (s : String) : Option Beh :=
     pure { f := ⟨idx, name, ← parseSt nec, ← parseSt proh, ← parseBool ng⟩, listReq := ← parseBool lr,
            listErr := ← parseBool le, parseErr := ← parseBool pe, mask := ← parseSt m,
            restart := ← parseBool rs, negErr := ← parseBool ne, layer := ← parseBool ly }
+  | [n, nec, proh, ng, lr, le, pe, m, rs, ne, ly, cn, cp] => do
+    let name ← parseName n
+    pure { f := ⟨idx, name, ← parseSt nec, ← parseSt proh, ← parseBool ng⟩, listReq := ← parseBool lr,
+           listErr := ← parseBool le, parseErr := ← parseBool pe, mask := ← parseSt m,
+           restart := ← parseBool rs, negErr := ← parseBool ne, layer := ← parseBool ly,
+           cnec := ← parseSt cn, cproh := ← parseSt cp }
   | _ => none
 
 def parseAdvItem (s : String) : Option AdvItem :=
@@ -185,6 +200,15 @@ def runFastT (tee : Bool) (C : List Feature) (O : Oracle) : Nat → TConf → TC
   | 0, t => t
   | n + 1, t => if t.c.pc.final && t.c.pc != .tee then t else runFastT tee C O n (stepT tee C O t)
 
+/-- the loops for a stream config function that looks at the session (`stepD` / `stepDT`) -/
+def runFastD (F : St → List Feature) (O : Oracle) : Nat → DConf → DConf
+  | 0, d => d
+  | n + 1, d => if d.c.pc.final then d else runFastD F O n (stepD F O d)
+
+def runFastDT (tee : Bool) (F : St → List Feature) (O : Oracle) : Nat → DTConf → DTConf
+  | 0, d => d
+  | n + 1, d => if d.t.c.pc.final && d.t.c.pc != .tee then d else runFastDT tee F O n (stepDT tee F O d)
+
 def advLen : Peer → Nat
   | .adv items => items.length + 1
   | _ => 1
@@ -206,7 +230,13 @@ def handle (args : List String) : Option String :=
     -- `r`: the transport is a plain io.ReadWriter without deadlines: the watcher moves nothing
     let raw := flags.contains 'r'
     let O := { mkOracle bs fl with dlRd := !raw, dlWr := !raw }
-    let c := if tee then (runFastT true C O (fuelFor C sc pk + 4 * (sc.length + 2)) ⟨init st0 sc pk, false⟩).c
+    -- features with a thirteenth field: the config function looks at the session
+    let dyn := bs.any fun b => b.cnec != 0 || b.cproh != 0
+    let F : St → List Feature := fun st => (bs.filter (·.configured st)).map (·.f)
+    let c := if dyn then
+               (if tee then (runFastDT true F O (fuelFor C sc pk + 4 * (sc.length + 2)) ⟨⟨init st0 sc pk, false⟩, F st0⟩).t.c
+                else (runFastD F O (fuelFor C sc pk) (initD F st0 sc pk)).c)
+             else if tee then (runFastT true C O (fuelFor C sc pk + 4 * (sc.length + 2)) ⟨init st0 sc pk, false⟩).c
              else runFast C O (fuelFor C sc pk) (init st0 sc pk)
     let evs := c.tr.reverse.filterMap showEv
     pure s!"{joinList evs} {showOutcome c.pc} {c.st.toNat}"
